@@ -132,6 +132,7 @@ class WordDomain(RingDomain):
         self.splits = {}
         self.ranges = {}            # symbol -> inclusive upper bound
         self.divs = {}
+        self.diffs = {}             # truncated difference -> (x, y, borrow)
         self.defs = []              # (symbol, kind, defining polynomial, parameter) in creation order: lets a residual be evaluated on concrete inputs
         self.origin = {}            # carry / borrow symbol -> the instruction (or source position) that introduced it
         self.note = ""
@@ -529,6 +530,12 @@ class WordDomain(RingDomain):
             if isinstance(r, WVal) and a.hi + b.hi >= (1 << self.width(ts)):
                 self.sums[r.p] = (a, b, self.split(WVal(a.p + b.p, a.hi + b.hi), self.width(ts))[1])
             return r
+        if op == "-":
+            # unsigned subtraction: x - y + 2^w * (borrow), exact
+            d, bw = self.borrow(a, b, self.width(ts))
+            if not (isinstance(bw, int) and bw == 0):
+                self.diffs[wv(d).p] = (a, b, bw)
+            return d
         if op in ("<", ">", ">=", "<="):
             # carry-detect idiom: s = x + y truncated; (s < x) == (s < y) == carry out
             s_, o_ = (a, b) if op in ("<", ">=") else (b, a)
